@@ -328,7 +328,16 @@ fn parse_impl(
     input: ParseStream,
 ) -> syn::Result<InputImpl> {
     let impl_token = input.parse()?;
-    let trait_path = input.parse()?;
+    let trait_path: syn::Path = input.parse()?;
+    if let Some(segment) = trait_path.segments.last() {
+        if !segment.arguments.is_none() {
+            // the generated header appends `<EntraitT>` to this path
+            return Err(syn::Error::new(
+                segment.arguments.span(),
+                "Entrait does not support generic arguments on the trait of an impl block",
+            ));
+        }
+    }
     let for_token = input.parse()?;
     let self_ty = input.parse()?;
 
